@@ -660,6 +660,61 @@ func c12Run(c *core.Ctx) {
 		c.Count("traces_validated_against_impl", int64(transitions))
 		c.Sample(map[string]interface{}{"E1_example_history": []c12Op{{Kind: "create", A: 1}, {Kind: "create", A: 1, Format: 1}, {Kind: "add", A: 0, B: 1}, {Kind: "remove", A: 1}, {Kind: "create", A: 1, B: 0}}})
 	}
+	// ---- E1 (deep trees): a chain of every depth up to 140 with leaves at its bottom, with/without a leaf next
+	// to every node of the chain, released at its root or at a node halfway down; afterwards more nodes than
+	// were released are obtained (pool answers newest / oldest / fresh mixed): each is blank, no node and no
+	// ID is handed out twice, the rest of the tree is intact ----
+	if c.Shard == 1%c.NShards {
+		deep := 0
+		for d := 1; d <= 140; d++ {
+			for _, leaves := range []int{1, 2, 3} {
+				for _, side := range []bool{false, true} {
+					for _, cutAt := range []int{0, d / 2} {
+						var ops []c12Op
+						ops = append(ops, c12Op{Kind: "create", A: 1, B: 1})
+						chain := []int{0}
+						n := 1
+						addUnder := func(parent int, typ int) int {
+							ops = append(ops, c12Op{Kind: "create", A: typ, B: 1}, c12Op{Kind: "add", A: parent, B: n})
+							n++
+							return n - 1
+						}
+						for i := 0; i < d; i++ {
+							chain = append(chain, addUnder(chain[len(chain)-1], 1))
+							if side {
+								addUnder(chain[len(chain)-2], 2)
+							}
+						}
+						for l := 0; l < leaves; l++ {
+							addUnder(chain[len(chain)-1], 2)
+						}
+						ops = append(ops, c12Op{Kind: "remove", A: chain[cutAt]})
+						for k := 0; k < n+3; k++ {
+							ops = append(ops, c12Op{Kind: "create", A: 1 + k%2, B: []int{0, 2, 0, 1}[k%4]})
+						}
+						c.Begin(func() interface{} { return c12Case{Ops: ops} })
+						_, e, at := c12Replay(ops)
+						c.Eval("E1-deep|" + fmt.Sprint(d/20))
+						deep++
+						if e != "" {
+							c.Violation(c12Sig(e)+":deep-tree", fmt.Sprintf("chain of depth %d, %d leaves at the bottom, side leaves=%v, released at depth %d: after operation %d: %s", d, leaves, side, cutAt, at, e), c12Case{Ops: ops},
+								func() string {
+									_, e3, _ := c12Replay(ops)
+									if e3 == "" {
+										return ""
+									}
+									return c12Sig(e3) + ":deep-tree"
+								})
+						}
+					}
+				}
+			}
+			if c.TimeUp() {
+				break
+			}
+		}
+		c.Count("deep_tree_histories", int64(deep))
+	}
 	// ---- E2 ----
 	idx := 0
 	L := 4
